@@ -457,7 +457,7 @@ func (c *SCIONClient) measureClockOffsetSCION(ctx context.Context, mtrcs *scionC
 			tsOpt, err := e2eLayer.FindOption(scion.OptTypeTimestamp)
 			if err == nil {
 				cRxTime0, err := udp.TimestampFromOOBData(tsOpt.OptData)
-				if err == nil {
+				if err == nil && !cRxTime0.Before(cTxTime1) && !cRxTime.Before(cRxTime0) {
 					cRxTime = cRxTime0
 				}
 			}
